@@ -389,7 +389,7 @@ CLASSES = {
     ("prqlc:semantic/reporting.rs", "Labeler::label_module", "names.iter("):
         (D, r"@prqlc:lib.rs:pub mod internal\{", "label_references: `prqlc debug annotate` only"),
     ("prqlc:semantic/resolver/expr.rs", "Resolver::construct_tuple_from_module", "names.iter("):
-        (S, r"\.sorted_by_key\(\|\(_,d\)\|d\.order\)", "sorted by Decl.order; sort_perm needs the orders of the emitted (Column / Module) entries to be distinct - ASSUMED, explored by the wildcard programs of the corpus"),
+        (L + "wildcard-equal-order-choice", r"\.sorted_by_key\(\|\(_,d\)\|d\.order\)", "sorted by Decl.order (stable), but a sub-namespace of input #n has order n and a column at position n-1 has order n too: `select {k = 1, t.b, u.c} | select {this.*}` emits k and u.* in map order"),
     ("prqlc:semantic/resolver/functions.rs", "Resolver::apply_args_to_closure", "named_args.into_iter("):
         (L + "unknown-named-arg-choice", r"named_args\.into_iter\(\)\.next\(\)\{return Err\(", "an arbitrary one of the unknown named arguments is reported"),
     ("prqlc:semantic/resolver/functions.rs", "Resolver::resolve_function_args", "for(index,(param,mut arg))in other"):
